@@ -5,6 +5,7 @@ import OmplModel.Props.C12
 #print axioms OmplModel.Props.C12.sample_inbounds_of_shape
 #print axioms OmplModel.Props.C12.sample_inbounds
 #print axioms OmplModel.Props.C12.getWeight_reads_leaf
+#print axioms OmplModel.Props.C12.refines_assoc
 #print axioms OmplModel.Props.C12.driftState_shape
 #print axioms OmplModel.Props.C12.sampleOld_oob_of_drift
 #print axioms OmplModel.Props.C12.sample_fixed_on_drift
